@@ -64,6 +64,30 @@ impl conserve::transport::verif::Interceptor for SlowAt {
     }
 }
 
+/// Storage whose first write under `prefix` does not start before the wall clock reaches `until`.
+struct SlowAtPrefix {
+    prefix: &'static str,
+    until: f64,
+    done: std::sync::atomic::AtomicBool,
+}
+
+impl conserve::transport::verif::Interceptor for SlowAtPrefix {
+    fn before(&self, call: &conserve::transport::verif::Call<'_>) -> conserve::transport::verif::Action {
+        use std::sync::atomic::Ordering;
+        if call.verb == conserve::transport::record::Verb::Write && call.path.starts_with(self.prefix) && !self.done.swap(true, Ordering::SeqCst) {
+            loop {
+                let now = std::time::SystemTime::now().duration_since(std::time::UNIX_EPOCH).unwrap().as_secs_f64();
+                if now >= self.until {
+                    break;
+                }
+                std::thread::sleep(std::time::Duration::from_millis(200));
+                crate::engine::heartbeat();
+            }
+        }
+        conserve::transport::verif::Action::Proceed
+    }
+}
+
 /// Storage that refuses to remove the block files whose name starts with one of 0-7.
 struct RefuseHalfOfTheBlocks;
 
@@ -245,7 +269,7 @@ fn run(case: &Case, cx: &mut Cx) -> CaseResult {
 }
 
 /// Scale probes (see probes.rs): the two-replay comparison on 10 015 hunks and multi-MiB blocks.
-fn enumerate(_tier: Tier, idx: u32, of: u32, cx: &mut Cx) -> CaseResult {
+fn enumerate(tier: Tier, idx: u32, of: u32, cx: &mut Cx) -> CaseResult {
     if !crate::probes::mine(idx, of) {
         return Ok(());
     }
@@ -326,6 +350,45 @@ fn enumerate(_tier: Tier, idx: u32, of: u32, cx: &mut Cx) -> CaseResult {
     cx.add_evals(1);
     cx.inner_nontrivial += 1;
 
+    // Thorough tier only (it costs a minute): one replay in which the storage stalls for 62 s
+    // in the middle of a backup. How long a backup takes must not shape what it writes.
+    if tier == Tier::Thorough {
+        let m = crate::probes::plain_meta();
+        let mut t = Tree(Default::default());
+        t.0.insert("/".into(), crate::tree::Node { kind: crate::tree::Kind::Dir, meta: crate::tree::Meta { mode: 0o755, ..m } });
+        for (name, pool, len) in [("a-small", 2u8, 200u32), ("b-small", 3, 300), ("c-big", 4, 70_000), ("d-small", 5, 250), ("e-small", 6, 100)] {
+            t.0.insert(format!("/{name}"), crate::tree::Node { kind: crate::tree::Kind::File { pool, len }, meta: m });
+        }
+        let sub = cx.dir("stall");
+        std::fs::create_dir_all(&sub).unwrap();
+        let src = sub.join("src");
+        crate::tree::materialise(&t, &src);
+        let o = Opts { hunk: 100, block: 1 << 20, cap: 1 << 12 };
+        let mut trees = vec![];
+        for (i, name) in ["arch_a", "arch_b"].iter().enumerate() {
+            let arch = sub.join(name);
+            ensure!(ops::create_archive(&arch).clean(), "C17/create", "probe");
+            // the stall sits at the first block write of the first replay
+            let hook: Hook = if i == 0 {
+                let until = std::time::SystemTime::now().duration_since(std::time::UNIX_EPOCH).unwrap().as_secs_f64() + 62.0;
+                Some(Arc::new(SlowAtPrefix { prefix: "d/", until, done: std::sync::atomic::AtomicBool::new(false) }) as Arc<dyn conserve::transport::verif::Interceptor>)
+            } else {
+                None
+            };
+            let b = ops::backup(&arch, &hook, &src, o, &[]);
+            ensure!(!ops::backup_reported_error(&b), "C17/probe-stall/backup", "{}", b.describe());
+            trees.push(format::raw_tree(&arch));
+        }
+        compare(&trees[0], &trees[1], 1).map_err(|mut f| {
+            f.signature = format!("{}/probe-stall", f.signature);
+            f.message = format!("a backup whose storage stalled for a minute wrote something else than the same backup on fast storage: {}", f.message);
+            f
+        })?;
+        crate::engine::force_remove(&sub);
+        cx.add_evals(1);
+        cx.inner_nontrivial += 1;
+    }
+
     // Many failing removals: 400 one-block files, the version deleted on storage that
     // refuses to remove about half of the blocks. What is left must not depend on the run.
     crate::engine::heartbeat();
@@ -362,7 +425,7 @@ pub fn prop() -> Prop<Case> {
     Prop {
         id: "C17",
         level: "exploration",
-        rule: "case = (history as C02 with <=10 ops quick / <=20 thorough, worker count in {1,2,4}, 0-23 perturbation bytes). Every step is applied to the one source and then to two fresh archives: A on a current-thread runtime with serialized storage operations, B on a multi-thread runtime with that many workers, storage operations not serialized (conserve's concurrent listing/validation tasks really overlap) and each preceded by a yield/sleep chosen by the perturbation bytes; interruptions are addressed by the ordinal of the mutating operation in both; in 30% of cases every delete/gc step additionally has one failing block removal, addressed by path (the i-th of the sorted blocks the delete is about to remove), identical in both replays. After every archive operation the two directories must have the same relative file set and byte-identical contents, except that start_time is removed from parsed BANDHEADs and end_time from parsed BANDTAILs. Non-trivial = >=2 backups, some band with >=2 hunks and some combined block; distinct by case hash; evaluations = archive-state comparisons; plus fixed probes per run: two backups (the second incremental) of the 10 012-file tree and of the multi-MiB-block tree under both runtime flavours, a wall-clock probe (three backups replayed two seconds before and one second after the mtime of one of the files, the second backup of the first replay on slow storage so that its band's start and end times bracket that mtime), and a version of 400 one-block files deleted twice on storage that refuses to remove half of the blocks",
+        rule: "case = (history as C02 with <=10 ops quick / <=20 thorough, worker count in {1,2,4}, 0-23 perturbation bytes). Every step is applied to the one source and then to two fresh archives: A on a current-thread runtime with serialized storage operations, B on a multi-thread runtime with that many workers, storage operations not serialized (conserve's concurrent listing/validation tasks really overlap) and each preceded by a yield/sleep chosen by the perturbation bytes; interruptions are addressed by the ordinal of the mutating operation in both; in 30% of cases every delete/gc step additionally has one failing block removal, addressed by path (the i-th of the sorted blocks the delete is about to remove), identical in both replays. After every archive operation the two directories must have the same relative file set and byte-identical contents, except that start_time is removed from parsed BANDHEADs and end_time from parsed BANDTAILs. Non-trivial = >=2 backups, some band with >=2 hunks and some combined block; distinct by case hash; evaluations = archive-state comparisons; plus fixed probes per run: two backups (the second incremental) of the 10 012-file tree and of the multi-MiB-block tree under both runtime flavours, a wall-clock probe (three backups replayed two seconds before and one second after the mtime of one of the files, the second backup of the first replay on slow storage so that its band's start and end times bracket that mtime), a version of 400 one-block files deleted twice on storage that refuses to remove half of the blocks, and (thorough tier only) one backup replayed on storage that stalls for 62 s at its first block write",
         assumptions: &[
             "evidence about independence from task scheduling (two runtime flavours + generated perturbations), not a proof over all schedules",
         ],
